@@ -122,7 +122,7 @@ def run(ck):
     from ..report import RuleView as _RV19
     from .c02 import records_frozen as _rf19
     _rf19(_RV19(ck, {"C19.6": "C19.6"}, only_files=("src/diagnostic/alignment_comparer.py", "src/diagnostic/benchmark_alignment.py",
-                                                    "src/compare_alignments.py")), "C19.6")
+                                                    "src/compare_alignments.py")), "C19.6", skip_modules=())
     cmp_fn = p.find_method("AlignmentComparer", "compare")
     a1, a2 = [V(pp.name) for pp in cmp_fn.call_params()]
     # the private helper that turns an alignment set into its key dictionary: the one compare applies to each of its two arguments
